@@ -55,6 +55,11 @@ def scenarios():
     add("raw-2tok-inside", ("raw", b"x", b"\r\n"), b"a\rb\nc\r\r\nrest")
     add("raw-aws", ("raw", b"config get cluster", AWS_TOKEN),
         b"CONFIG cluster 0 47\r\n1\nh1|10.0.0.1|11211 h2|10.0.0.2|11211\n\r\nEND\r\n")
+    # protocol keywords inside payloads: they are data, wherever a piece happens to start
+    words = b"SERVER_ERROR out of memory\r\nCLIENT_ERROR bad\r\nERROR\r\nEND"
+    add("raw-error-words", ("raw", b"get lastlog", b"END\r\n"), b"VALUE lastlog 0 %d\r\n" % len(words[:-3]) + words[:-3] + b"END\r\n")
+    add("raw-error-words-2", ("raw", b"x", b"\n\r\nEND\r\n"), b"ERROR\r\nSERVER_ERROR x\r\nok\n\r\nEND\r\n")
+    add("get-error-words-value", ("get", "k"), v(b"k", b"x\r\nSERVER_ERROR y\r\nERROR\r\nCLIENT_ERROR z\r\n") + b"END\r\n")
     add("raw-aws-decoy", ("raw", b"config get cluster", AWS_TOKEN), b"CONFIG\n\r\nEN\n\r\nEND\r\n")
     for total in (4096, 8192, 12288, 8192 + 100):
         for tok in (b"\r\n", AWS_TOKEN):
@@ -95,7 +100,7 @@ def cuts_to_pieces(reply, cuts, eintr_at=()):
     out = []
     prev = 0
     for i, c in enumerate(list(cuts) + [len(reply)]):
-        if i in eintr_at:
+        for _ in range(list(eintr_at).count(i)):      # a gap listed k times = a burst of k interrupted recv() calls
             out.append(("eintr",))
         out.append(reply[prev:c])
         prev = c
@@ -273,6 +278,10 @@ def main(argv):
             if cuts and (cnt % 5 == 0 or len(cuts) == 1):
                 variants.append(tuple(range(1, len(cuts) + 1)))     # EINTR in every gap
                 variants.append((ctx.rng.randrange(0, len(cuts) + 1),))
+            if (cuts and cnt % 7 == 0) or cnt == 0:
+                g = ctx.rng.randrange(0, len(cuts) + 1)
+                variants.append((g, g))                              # bursts: several interrupted recv() calls in a row in one gap
+                variants.append((0, 0, 0) if cnt % 2 else (len(cuts),) * 3)
             for ei in variants:
                 pieces = cuts_to_pieces(reply, cuts, ei)
                 got, extra = run(Client, op, pieces)
